@@ -485,11 +485,6 @@ package commonmark
 //@   ensures[rules] result <==> DelimMatch(open.typ, open.flags, open.n, close.typ, close.flags, close.n)
 //@   serves C11, C04
 
-//@ func delimiterStackElement.openersBottomIndex
-//@   requires 1 <= elem.typ && elem.typ <= 4 && elem.n >= 0
-//@   ensures[range] 0 <= result && result < openersBottomCount
-//@   serves C11, C04
-
 //@ func verifBucketLemma
 //@   requires 0 <= o.n && o.n <= 281474976710656 && 0 <= c1.n && c1.n <= 281474976710656 && 0 <= c2.n && c2.n <= 281474976710656
 //@   ensures[bucket] result
